@@ -30,9 +30,12 @@ TOL = 1e-9
 
 
 def configs(tier):
+    global WORDS
+    if tier == "thorough":
+        WORDS = [(0.0625,), (0.5,), (1.0,), (3.0,), (1.0, 0.0625), (0.0625, 3.0), (0.5, 0.5, 3.0), (3.0, 0.0625, 0.0625)]
     targets = [None, ("det", 2), ("det", 10), ("det", "20 docs/s"), ("det", ("interval", 0.25)), ("poisson", 2), ("poisson", 10)]
     wus = [(1, "ops"), (5, "docs")]
-    for clients in (1, 2, 4):
+    for clients in ((1, 2, 4) if tier == "quick" else (1, 2, 3, 4)):
         for word in WORDS:
             for tgt in targets:
                 for wu in wus:
